@@ -45,6 +45,16 @@ def run_shard(desc, ctx):
         run_case({'seed': [desc['seed'], desc['shard'], i]}, ctx)
 
 
+def _scribble(rec, ctx):
+    """The caller owns what it was given: overwrite the arrays of a judged record in place. Later requests on the
+    same model (same template, other options) are judged as usual and must not be affected."""
+    for name in ('template', 'amplitude', 'channel_ids'):
+        a = getattr(rec, name, None)
+        if isinstance(a, np.ndarray) and a.flags.writeable and a.size:
+            a[...] = a[::-1].copy() if a.ndim == 1 else 0
+            ctx.mon('returned_record_modified')
+
+
 def run_case(case, ctx):
     from phylib.io.model import load_model
     rng = np.random.default_rng(case['seed'])
@@ -125,6 +135,7 @@ def _dense(m, spec, desc, ctx, rng):
                         probs.append(('wrong_channel_set', 'channels %s; required %s, allowed %s' % (
                             sorted(got), sorted(req_set), sorted(allowed))))
                     _report(ctx, desc, req, probs, base)
+                    _scribble(rec, ctx)
         ctx.sample({'spec': spec.describe(), 't': t}, every=97)
         # explicit lists
         m.n_closest_channels = 12
@@ -182,7 +193,7 @@ def _dense(m, spec, desc, ctx, rng):
 
 def _sparse(m, spec, desc, ctx, rng):
     for t in range(spec.n_templates):
-        for unw in (True, False):
+        for unw in (True, False, True, False):       # second pass: after the caller wrote into the first records
             ch, W, amp = rt.sparse_record(spec, t, unw)
             dropped = len(ch) < spec.templates.shape[2]
             req = {'t': t, 'unwhiten': unw, 'sparse': True}
@@ -208,4 +219,5 @@ def _sparse(m, spec, desc, ctx, rng):
                 if int(rec.best_channel) != int(ch[int(np.argmax(amp))]):
                     probs.append(('wrong_peak', 'best_channel %r, reference %d' % (rec.best_channel, ch[int(np.argmax(amp))])))
             _report(ctx, desc, req, probs, base)
+            _scribble(rec, ctx)
         ctx.sample({'spec': spec.describe(), 't': t, 'ind': spec.template_ind[t].tolist()}, every=53)
